@@ -392,7 +392,8 @@ def run(ctx):
                       f"the logbook cannot link the run to the triggering occurrence", key=f"child context {clabel}", node=f, rel=uid.split("::")[0])
     context_owner_rule(ctx, program, "R08.5")
     ctx.rule("R08.6", "shared source listeners: one bus/broker/webhook registration per subscribed type - made when the first subscriber arrives, "
-             "released (handle called) when the last one leaves, so re-subscription never doubles the deliveries", floor=24)
+             "released (handle called) when the last one leaves, so re-subscription never doubles the deliveries; a subscriber overtaken by another one of the same type "
+             "while its registration is awaited leaves exactly one registration behind", floor=33)
     listener_table(ctx, program, "R08.6")
     ctx.rule("R08.11", "an event is delivered with exactly its data as keyword arguments and event.fire() carries exactly the given parameters, whatever the keys are "
              "called: the functions the data passes through (event.fire, both subsystems' run wrappers, the interpreter's call) take their own parameters positional-only", floor=3)
